@@ -52,15 +52,16 @@ theorem exiting_mem_threads (hi : Inv s) (u : Tid) (hu : exiting (s.pc u) = true
   | none => exact hi.pendNone hp hph u hw
   | some c =>
     exfalso
-    rcases (hi.pendPc c).mp hp with hc | hc
+    rcases (hi.pendPc c).mp hp with hc | hc | hc
     · have := hi.liveHandle c (by simp [hc])
       exact hs (hi.shutNo (by simp [this]))
+    · exact hs (hi.pastChkNo c (by simp [hc]))
     · by_cases c0 : c = 0
       · subst c0; exact hs (hi.shutNo (by simp [hc]))
       · have := hi.othersNotM c c0; simp [hc] at this
 
 /-- the thread that was created but is not yet in `pool->threads` has not left the worker loop -/
-theorem pending_beforeDec (hi : Inv s) (c : Tid) (hc : s.pc c = .sInsert ∨ s.pc c = .mNewInsert) :
+theorem pending_beforeDec (hi : Inv s) (c : Tid) (hc : s.pc c = .sInsert ∨ s.pc c = .nInsert ∨ s.pc c = .mNewInsert) :
     beforeDec (s.pc (s.newTh c)) = true ∧ s.newTh c ∉ s.threads := by
   have hp := (hi.pendPc c).mpr hc
   have h3 := hi.pendSome c hp
@@ -70,9 +71,10 @@ theorem pending_beforeDec (hi : Inv s) (c : Tid) (hc : s.pc c = .sInsert ∨ s.p
   | true =>
     exfalso
     have hs := hi.exitShut _ he
-    rcases hc with hc | hc
+    rcases hc with hc | hc | hc
     · have := hi.liveHandle c (by simp [hc])
       exact hs (hi.shutNo (by simp [this]))
+    · exact hs (hi.pastChkNo c (by simp [hc]))
     · by_cases c0 : c = 0
       · subst c0; exact hs (hi.shutNo (by simp [hc]))
       · have := hi.othersNotM c c0; simp [hc] at this
@@ -93,11 +95,10 @@ theorem aliveCnt_step (hi : Inv s) (h : step s l = some s') :
   have h7 := countP_mem_pos beforeDec s.pc l.tid s.threads
   have h8 := none_not_thread hi
   have h9 := pending_beforeDec hi l.tid
-  have h10 : (s.pc l.tid = .sInsert ∨ s.pc l.tid = .mNewInsert) → s.newTh l.tid ≠ l.tid := by
-    intro hc e
-    have := (h9 hc).1
-    rw [e] at this
-    rcases hc with hc | hc <;> simp [hc] at this
+  have h10 : (s.pc l.tid = .sInsert ∨ s.pc l.tid = .nInsert ∨ s.pc l.tid = .mNewInsert) → s.newTh l.tid ≠ l.tid :=
+    fun hc => hi.pendSelf l.tid ((hi.pendPc l.tid).mpr hc)
+  have hA := ph_of_pastChk hi l.tid
+  have hB := ph_of_inTask hi l.tid
   step_cases h
   all_goals (
     simp only [State.goto, List.countP_cons, countP_upd' _ _ _ _ _ hn]
@@ -106,16 +107,17 @@ theorem aliveCnt_step (hi : Inv s) (h : step s l = some s') :
     · simp_all [upd_apply, zero_eq] <;> fin)
 
 
-/-- while thread 0 is past `m_thpool_new` and no `m_thpool_add` is running, every worker is in `pool->threads` -/
-theorem worker_mem_threads (hi : Inv s) (hph : 3 ≤ ph (s.pc 0)) (hph2 : ph (s.pc 0) ≤ 13) (u : Tid) (hu : isW (s.pc u) = true) :
+/-- once `shutdown` is set, every worker is in `pool->threads` -/
+theorem worker_mem_threads (hi : Inv s) (hph : 5 ≤ ph (s.pc 0)) (hph2 : ph (s.pc 0) ≤ 13) (u : Tid) (hu : isW (s.pc u) = true) :
     u ∈ s.threads := by
   have hw := (hi.workersIff u).mpr hu
   cases hp : s.pendBy with
   | none => exact hi.pendNone hp hph2 u hw
   | some c =>
     exfalso
-    rcases (hi.pendPc c).mp hp with hc | hc
+    rcases (hi.pendPc c).mp hp with hc | hc | hc
     · have := hi.liveHandle c (by simp [hc]); simp [this] at hph
+    · have := ph_of_pastChk hi c (by simp [hc]); omega
     · by_cases c0 : c = 0
       · subst c0; simp [hc] at hph
       · have := hi.othersNotM c c0; simp [hc] at this
@@ -157,6 +159,8 @@ theorem joinCover_step (hi : Inv s) (h : step s l = some s') :
   have h6 : u ∈ s.threads → u ≠ 0 := fun hm e => by
     have a := (hi.workersIff u).mp (hi.thrSub u hm); rw [e] at a
     have b := isW_not_isM _ a; rw [hi.mainIsM] at b; cases b
+  have hA := ph_of_pastChk hi l.tid
+  have hB := ph_of_inTask hi l.tid
   step_cases h
   all_goals (
     by_cases h0 : l.tid = 0 <;> by_cases ht : u = l.tid <;>
@@ -171,6 +175,8 @@ theorem joinSub_step (hi : Inv s) (h : step s l = some s') :
   have h2 := hi.liveHandle l.tid
   have h4 := hi.othersNotM l.tid
   have h5 := hi.mainIsM
+  have hA := ph_of_pastChk hi l.tid
+  have hB := ph_of_inTask hi l.tid
   step_cases h
   all_goals (
     by_cases h0 : l.tid = 0
